@@ -204,6 +204,35 @@ HEADER_RX = {
 }
 
 
+def deasync(text, info, where):
+    """Mechanical de-sugaring used for units whose stand-in dependencies are synchronous: the `async`
+    keyword of `async fn` and every `.await` token (in code, not in strings/comments) are deleted.
+    Nothing else is touched. `async` blocks/closures are not handled (lost anchor => undecided)."""
+    mask = code_mask(text)
+    out = []
+    i = 0
+    n = len(text)
+    n_async = n_await = 0
+    while i < n:
+        if mask[i] and text.startswith(".await", i) and not (text[i + 6:i + 7].isalnum() or text[i + 6:i + 7] == "_"):
+            i += 6
+            n_await += 1
+            continue
+        if mask[i] and text.startswith("async", i) and (i == 0 or not (text[i - 1].isalnum() or text[i - 1] == "_")):
+            m = re.match(r"async(\s+)(unsafe\s+)?fn\b", text[i:])
+            if m:
+                i += 5 + len(m.group(1))
+                n_async += 1
+                continue
+            if re.match(r"async\s*(move\s*)?[{|]", text[i:]):
+                raise LostAnchor(f"{where}: async block/closure cannot be de-sugared")
+        out.append(text[i])
+        i += 1
+    if n_async or n_await:
+        info["dropped"].append(f"{where}: `async` keyword x{n_async}, `.await` x{n_await} (stand-ins are synchronous)")
+    return "".join(out)
+
+
 def drop_attrs(text, attrs, dropped, where):
     if not attrs:
         return text
@@ -296,6 +325,8 @@ def run_job(job, repo, outdir, info):
                     fa, fb, _ = slice_item(s, mask, "fn", fname, (i, b))
                     t = s[fa:fb]
                     t = drop_attrs(t, job.get("drop_attrs", []), info["dropped"], f"{job['src']}:{fname}")
+                    if job.get("deasync"):
+                        t = deasync(t, info, f"{job['src']}:{fname}")
                     fn_texts.append(t)
                     info["slices"].append(dict(src=job["src"], item=f"{name}::{fname}", bytes=[fa, fb], sha256=sha(s[fa:fb])))
                 parts.append(head + "\n" + "\n\n".join(fn_texts) + "\n}\n")
@@ -303,6 +334,8 @@ def run_job(job, repo, outdir, info):
                 a, b, _ = slice_item(s, mask, kind, it.get("header", name) if kind == "impl" else name)
                 t = s[a:b]
                 t = drop_attrs(t, job.get("drop_attrs", []), info["dropped"], f"{job['src']}:{name}")
+                if job.get("deasync"):
+                    t = deasync(t, info, f"{job['src']}:{name}")
                 for rx, repl in it.get("vis", []):
                     t = re.sub(rx, repl, t, count=1)
                 parts.append(t + "\n")
